@@ -139,3 +139,7 @@ Proof. exact response_head_is_the_source. Qed.
 Print Assumptions C04_chunk_header_string_is_the_source.
 Print Assumptions C04_last_chunk_string_is_the_source.
 Print Assumptions C04_response_head_is_the_source.
+Theorem C04_content_length_line_is_the_source : forall n,
+  xrun (mk_xenv [] 0 0 n) hf_content_length_src = Some (content_length_line n).
+Proof. exact content_length_line_is_the_source. Qed.
+Print Assumptions C04_content_length_line_is_the_source.
